@@ -309,7 +309,7 @@ if oc.getAttributeList() != ["id", "val"] or [list(r) for r in oc.getRowList()] 
 ac = d.getObj("atom_site"); tgt = b if fn == "copy" else a
 want_attrs = ATTRS if tgt in ATTRS else ATTRS + [tgt]
 rows = [list(r) for r in ac.getRowList()]
-if list(ac.getAttributeList()) != want_attrs or len(rows) != nrows: bad = True
+if list(ac.getAttributeList()) != want_attrs or len(rows) != nrows or any(len(r) != len(want_attrs) for r in rows): bad = True
 else:
     j = want_attrs.index(tgt)
     for r in range(nrows):
